@@ -267,6 +267,9 @@ func (w *vWorld) renderMsg(m *ServerComMessage) string {
 		if m.Info.Event != "" {
 			ev = " event=" + m.Info.Event
 		}
+		if m.Info.Payload != nil {
+			ev += " payload=" + vTok(string(m.Info.Payload))
+		}
 		return fmt.Sprintf("info %s from=%s what=%s seq=%d%s", w.tname(m.Info.Topic), w.tname(m.Info.From), m.Info.What, m.Info.SeqId, ev)
 	case m.Pres != nil:
 		p := m.Pres
